@@ -46,7 +46,9 @@ void randomize_regs(Teakra::RegisterState& r, Rng& g, bool wild_pc) {
     r.sat = bits(1);
     r.sata = bits(1);
     r.s = bits(1);
-    r.sv = bits(16);
+    r.sv = g.chance(1, 2) ? g.pick(std::vector<u16>{0, 1, 15, 16, 31, 32, 39, 40, 41, 47, 48, 63, 64, 0x7FFF, 0x8000, 0xFFFF, 0xFFF0, 0xFFE0, 0xFFD9, 0xFFD8,
+                                                    0xFFD7, 0xFFC0, 0xFF80})
+                          : bits(16);
     r.fz = bits(1);
     r.fm = bits(1);
     r.fn = bits(1);
@@ -203,6 +205,17 @@ void biased_program(Asm& a, Rng& g, u32 at, int len) {
         case 24:
             a.w2(0x0028 | (u16)g.below(8), (u16)g.next());
             break; // tstb <sttmod>, imm16
+        case 25: // shift value register and shifts by it
+            a.w2((u16)(0x5E00 | op::SV), g.pick(std::vector<u16>{0, 1, 15, 16, 31, 32, 39, 40, 41, 48, 64, 0x7FFF, 0x8000, 0xFFFF, 0xFFE0, 0xFFD9, 0xFFD8, 0xFFD7,
+                                                                 0xFFC0, 0xFF80}));
+            a.w((u16)(0xD280 | g.below(4) << 10 | g.below(4) << 5 | (g.chance(1, 2) ? 0 : g.below(16)))); // shfc ab, ab, cond
+            break;
+        case 26:
+            if (g.chance(1, 2))
+                a.w((u16)(0x0100 | g.below(32) | g.below(4) << 5)); // movs reg, ab (shift by sv)
+            else
+                a.w((u16)(0x9240 | g.below(4) << 10 | g.below(4) << 7 | g.below(64))); // shfi ab, ab, imm6s
+            break;
         default:
             a.w((u16)g.next());
             break;
